@@ -45,17 +45,18 @@ TRUSTED = ["hand model Tetl/C20/Model.lean tied to the source by the corresponde
 SEARCH_CAP = 400000
 
 KINDS = [0, 1, 2, 3, 4, 5]
-PAIR_OPS = ["ctor", "ctorr", "copy", "move", "assign", "massign", "swap", "fswap", "selfswap", "make", "maker",
+PAIR_OPS = ["dflt", "ctor", "ctorr", "copy", "move", "assign", "massign", "swap", "fswap", "selfswap", "make", "maker",
             "get", "getc", "getr", "getcr", "sb", "conv", "convr", "cassign", "cmassign"]
-TUPLE_OPS = ["ctor", "ctorr", "copy", "move", "swap", "selfswap", "make", "maker", "get", "getc", "getr", "getcr",
+TUPLE_OPS = ["dflt", "ctor", "ctorr", "copy", "move", "swap", "selfswap", "make", "maker", "get", "getc", "getr", "getcr",
              "mft", "mftr", "fwd", "tie"]
 TYPEQ = ["make_pair_unwraps_refwrap", "make_tuple_unwraps_refwrap", "tuple_cat_value_types", "tuple_cat_keeps_ref",
          "tuple_cat_keeps_nested", "tuple_copy_assignable", "tuple_move_assignable", "tuple_get_by_type",
-         "tuple_structured_binding", "pair_ref_copy_assignable"]
+         "tuple_structured_binding", "pair_ref_copy_assignable", "pair_get_by_type", "tuple_converting_ctor"]
 TYPE_FINDINGS = {"tuple_cat_keeps_ref": "F-C20-tuple-cat-decays",
                  "tuple_cat_keeps_nested": "F-C20-tuple-cat-decays", "tuple_copy_assignable": "F-C20-tuple-not-assignable",
                  "tuple_move_assignable": "F-C20-tuple-not-assignable", "tuple_get_by_type": "F-C20-tuple-get-by-type",
-                 "tuple_structured_binding": "F-C20-tuple-structured-binding"}
+                 "tuple_structured_binding": "F-C20-tuple-structured-binding",
+                 "pair_get_by_type": "F-C20-pair-get-by-type", "tuple_converting_ctor": "F-C20-tuple-converting-ctors"}
 NAN = 9
 
 
@@ -152,8 +153,8 @@ def generate(tier, seed):
         b = [rnd.randint(0, 99), rnd.randint(0, 99)]
         add("pair op=%s t=%s a=%s b=%s" % (rnd.choice(PAIR_OPS), fmt_list([rnd.choice(KINDS), rnd.choice(KINDS)]), fmt_list(a), fmt_list(b)),
             "pair/random")
-    # ---- tuple equality: all pairs of tuples over the domain, arity 1..3
-    for n in (1, 2, 3):
+    # ---- tuple equality: all pairs of tuples over the domain, arity 0..3 (arity 0: the one empty tuple)
+    for n in (0, 1, 2, 3):
         for a in itertools.product(V, repeat=n):
             for b in itertools.product(V, repeat=n):
                 add("tuple op=eq a=%s b=%s" % (fmt_list(a), fmt_list(b)), "tuple/eq")
@@ -166,9 +167,10 @@ def generate(tier, seed):
                     b = [x + 3 for x in a]
                     add("tuple op=%s t=%s a=%s b=%s" % (op, fmt_list([k] * n), fmt_list(a), fmt_list(b)), "tuple/" + op)
     for n in (1, 2, 3):
-        for q in range(4):
-            for base in ([1, 2, 3], [0, 0, 9]):
-                add("tuple op=apply q=%d a=%s" % (q, fmt_list(base[:n])), "tuple/apply")
+        for q in range(4):          # category of the tuple
+            for c in range(4):      # category of the callee (forward<F>(f))
+                for base in ([1, 2, 3], [0, 0, 9]):
+                    add("tuple op=apply q=%d c=%d a=%s" % (q, c, fmt_list(base[:n])), "tuple/apply")
     # ---- tuple_cat
     shapes = [list(t) for m in (1, 2, 3) for t in itertools.product((1, 2), repeat=m)]
     for t in (0, 1, 2, 3):
@@ -201,12 +203,12 @@ def generate(tier, seed):
     # ---- function_ref, inplace_function argument forwarding
     for c in (0, 1):
         for act in ("call", "copy"):
-            for xc in (0, 1, 2):
+            for xc in (0, 1, 2, 3):
                 add("fref f=fob c=%d act=%s x=[1,2,3] xc=[%d]" % (c, act, xc), "fref/fob")
     for f in ("fn", "fptr", "lam"):
         for act in ("call", "copy"):
             add("fref f=%s c=0 act=%s x=[4,2] xc=[]" % (f, act), "fref/" + f)
-    for xc in (0, 1, 2):
+    for xc in (0, 1, 2, 3):
         add("ifn2 x=[1,2,3] xc=[%d]" % xc, "ifn2")
     # ---- reference_wrapper, bind_front, not_fn
     for cst in (0, 1):
@@ -217,15 +219,25 @@ def generate(tier, seed):
     for q in range(4):
         for bl in (0, 1):
             for nb in (0, 1, 2):
-                for n in (0, 1, 2):
-                    for xc in cat_lists(n):
-                        add("bf f=fob q=%d bl=%d b=%s x=%s xc=%s" % (q, bl, fmt_list([1, 2][:nb]), fmt_list([3, 5][:n]), fmt_list(xc)), "bf/fob")
+                # br: which bound arguments are handed over as ref(object); act: call the wrapper, a copy of it, or one moved from it
+                for br in itertools.product((0, 1), repeat=nb):
+                    for act in ("call", "copy", "move"):
+                        plain = act == "call" and not any(br)
+                        if all(br) and nb > 0 and bl == 1:
+                            continue          # bl only concerns plain arguments
+                        for n in ((0, 1, 2) if plain else (0, 1)):
+                            for xc in cat_lists(n):
+                                add("bf f=fob q=%d bl=%d b=%s br=%s act=%s x=%s xc=%s"
+                                    % (q, bl, fmt_list([1, 2][:nb]), fmt_list(br), act, fmt_list([3, 5][:n]), fmt_list(xc)),
+                                    "bf/fob" if plain else ("bf/fob-ref" if any(br) else "bf/fob-" + act))
         for nb in (0, 1, 2):
             add("bf f=fn q=%d bl=0 b=%s x=%s" % (q, fmt_list([1, 2][:nb]), fmt_list([3, 5][:2 - nb])), "bf/fn")
         for p in (0, 1):
-            for n in (0, 1, 2):
-                for xc in cat_lists(n):
-                    add("nf q=%d p=%d x=%s xc=%s" % (q, p, fmt_list([3, 5][:n]), fmt_list(xc)), "nf")
+            for act in ("call", "copy", "move"):
+                for n in ((0, 1, 2) if act == "call" else (0, 1)):
+                    for xc in cat_lists(n):
+                        add("nf q=%d p=%d act=%s x=%s xc=%s" % (q, p, act, fmt_list([3, 5][:n]), fmt_list(xc)),
+                            "nf" if act == "call" else "nf/" + act)
     for q in TYPEQ:
         add("typeq q=%s" % q, "typeq")
     # ---- inplace_function histories: every sequence of `depth` operations of the alphabet
